@@ -416,8 +416,13 @@ func (fr *Frame) term(v *GVal) *Term {
 				ex.st.freeze(v.Reg)
 			}
 			base = ex.st.cells[v.Reg]
-		} else {
+		} else if v.T != nil {
 			base = w.SlArr(v.T)
+		} else if v.Origin != nil {
+			base = w.SlArr(fr.load(v.Origin))
+		} else {
+			ex.unsupp("slice view without a base value")
+			base = ex.p.FreshConst("viewbase", SArray(SInt, es))
 		}
 		if isZeroLit(v.Off) {
 			return w.MkSlice(es, base, v.Len, v.viewNil())
